@@ -163,6 +163,16 @@ class Run:
             return True
         if fi is not None and pred is not None:
             from .calls import callees_of
+            import ast as _ast
+            for n in _ast.walk(fi.node):
+                try:
+                    hit = pred(n)
+                except Exception:
+                    hit = False
+                if hit:
+                    self.inconclusive(construct, f'{what}: not found in the form this rule reads, but {fi.qualname} contains a candidate at line '
+                                                 f'{getattr(n, "lineno", "?")} (idiom not modelled)')
+                    return False
 
             for cal in callees_of(self.repo, fi):
                 for n in __import__('ast').walk(cal.node):
